@@ -22,7 +22,7 @@ import hashlib
 import json
 import random
 
-from lib import build, hrun, tlc, tracex
+from lib import build, hrun, tlc, tracestats as tracex
 from lib.common import Broken, log
 
 LEVEL = "model_checking"
@@ -62,11 +62,13 @@ def _par(jobs, n):
 # ------------------------------------------------------------------------------------------ 1. TLC
 def model_check(ctx):
     thorough = ctx.tier == "thorough"
-    cfgs = [("values", K(1, 2, 1, 1, 3, 3, 2, 2)),          # family of contexts, shadowing, immutability
-            ("deep", K(1, 1, 1, 1, 2, 2, 7, 1)),            # every detach order, depth <= 7, one thread
-            ("threads", K(2, 1, 1, 1, 2, 2, 4 if thorough else 3, 1))]   # two threads interleaved
+    # (NT, NK, NV, NS, MaxCtx, MaxSet, MaxDepth, MaxMap); measured distinct states in design_notes/C10.md
+    cfgs = [("values", K(1, 2, 1, 1, 3, 2, 1, 2)),          # family of contexts, shadowing, immutability
+            ("deep", K(1, 1, 1, 1, 2, 1, 7, 1)),            # every detach order, depth <= 7, one thread
+            ("threads", K(2, 1, 1, 1, 2, 1, 3, 1))]         # two threads interleaved
     if thorough:
-        cfgs += [("values2", K(1, 2, 2, 1, 3, 3, 3, 2)), ("threads3", K(3, 1, 1, 1, 1, 1, 3, 1))]
+        cfgs += [("values2", K(1, 2, 1, 1, 3, 3, 2, 2)), ("deep2", K(1, 1, 1, 1, 2, 2, 7, 1)),
+                 ("threads2", K(2, 1, 1, 1, 2, 2, 4, 1)), ("threads3", K(3, 1, 1, 1, 1, 1, 3, 1))]
 
     def one(name, k):
         c = _cfg(ctx, "mc-" + name, k, MC_TAIL)
@@ -80,7 +82,8 @@ def model_check(ctx):
         tlc.must_ok(r, "Context.tla model checking (%s): the ideal spec must satisfy the property" % name)
         if r.coverage:
             for a in ACTIONS:
-                if r.coverage.get(a, (0, 0))[0] == 0:
+                # (TLC names a singleton \E-instantiation after the inner action)
+                if r.coverage.get(a, (0, 0))[0] + r.coverage.get(a[2:], (0, 0))[0] == 0:
                     raise Broken("vacuity: action %s never taken in MC config %s" % (a, name))
 
 
@@ -116,7 +119,7 @@ def generate(ctx):
                                 simulate={"num": 100000, "depth": 100}, seed=ctx.seed + 3)
 
     def allshort():
-        k = K(1, 2, 1, 1, 3, 2, 3, 1, GenDepth=5, Hist=True)
+        k = K(1, 2, 1, 1, 3, 2, 3, 1, GenDepth=5 if thorough else 4, Hist=True)
         c = _cfg(ctx, "g-all", k, "CONSTRAINT Bound\nACTION_CONSTRAINT Closing\nINVARIANTS EmitAll")
         return "all", k, tlc.tlc("Context", c, rundir=ctx.rundir.path, workers=4, timeout_s=150, tag="g-all", xmx="6g")
 
@@ -231,6 +234,8 @@ def replay_all(ctx, exe, insts):
         for s in b["steps"]:
             ops[s["op"]] = ops.get(s["op"], 0) + 1
         if not g["ok"] and not g.get("crash"):
+            if str(g.get("what", "")).startswith("harness:"):
+                raise Broken("replay harness cannot follow a behaviour: %s" % g)
             nbad += 1
             if nbad <= 5:
                 st = b["steps"][g["step"]]
@@ -369,11 +374,15 @@ def run(ctx):
                          "replayed step by step on the real API + real concurrent executions accepted by ContextTrace.tla; distinct_nontrivial = "
                          "distinct TLC behaviours (sha1 of the step list) + recorded executions (distinct seeds)")
     exe = build.harness("c10_context", ["c10_context.cc"], "asan", need_sdk=False)
+    log("C10 harness built %.0fs" % ctx.timer.s())
     model_check(ctx)
+    log("C10 model checking done %.0fs" % ctx.timer.s())
     behs = generate(ctx)
+    log("C10 generation done %.0fs (%d behaviours)" % (ctx.timer.s(), len(behs)))
     insts = concretise(ctx, behs)
     replay_all(ctx, exe, insts)
     selftest(ctx, exe, insts)
+    log("C10 replay done %.0fs" % ctx.timer.s())
     record_validate(ctx, exe)
 
 
